@@ -206,6 +206,18 @@ def oracle_source(S, src, filename, tree=None, with_lint=True, location_cursors=
             flat = []
             for r in locs:
                 flat += r if isinstance(r, list) else [r]
+            if rights:
+                # the same request on an UNNAMED buffer (filename=None, as an editor sends for a new file): its own-buffer results are
+                # judged by the same sentence (found missing by seeded change C11-5: the un-shift of the mark keyed on the file name)
+                try:
+                    unnamed = S.util.Source(src, None).filename
+                    for r in S.assistant.location(S.project, src, cur, None):
+                        for r1 in (r if isinstance(r, list) else [r]):
+                            if r1['file'] == unnamed:
+                                flat.append({'loc': r1['loc'], 'file': filename, 'unnamed_buffer': True})
+                                st['location_results_unnamed_buffer'] = st.get('location_results_unnamed_buffer', 0) + 1
+                except Exception:  # noqa  -- totality is C08
+                    pass
             for r in flat:
                 if r['file'] != filename:
                     continue
@@ -221,7 +233,7 @@ def oracle_source(S, src, filename, tree=None, with_lint=True, location_cursors=
                     # go-to-definition follows assignments (x = y -> y's binding): accept any enumerated binding position
                     if not any(pos in v for v in by_name.values()):
                         fails.append(('location reports a position no enumerated binding carries',
-                                      {'name': n.id, 'cursor': list(cur), 'loc': list(pos)}))
+                                      {'name': n.id, 'cursor': list(cur), 'loc': list(pos), 'unnamed_buffer': bool(r.get('unnamed_buffer'))}))
                         continue
                 l, c = pos
                 if 1 <= l <= len(lines) and is_ascii(lines[l - 1]):
